@@ -62,7 +62,8 @@ def r20_1(ck: Check) -> None:
         if isinstance(n, ast.Try):
             ntry += 1
             for h in n.handlers:
-                calls_dis = any(isinstance(x, ast.Call) and isinstance(x.func, ast.Attribute) and x.func.attr == "disconnect" for b in h.body for x in ast.walk(b))
+                # the handler (or a helper it calls, expanded in place) disconnects the peer the event belongs to
+                calls_dis = any(any(c.prov == "handler" and c.line == h.lineno for c in e.pc) for e in dis)
                 if not calls_dis:
                     ck.violated("R20.1", "every handler of the catch-all disconnects the offending peer", "a handler swallows the error without closing the connection",
                                 "%s:%d" % (s.fi.module.path, h.lineno))
